@@ -1410,6 +1410,49 @@ def dict_loop_to_comprehension(fi: FunctionInfo) -> int:
     return count
 
 
+def merge_side_list(fi: FunctionInfo) -> int:
+    """`L = []; .. L.append(x) ..; R.extend(L)` read as `.. R.append(x) ..` (in place): a list born
+    empty, only appended to (directly or through a bound `L.append` held in a local), and poured
+    once into R, with no other use of R between the birth of L and the `extend`."""
+    count = 0
+    own = list(own_nodes(fi.node))
+    for a in own:
+        if not (isinstance(a, ast.Assign) and len(a.targets) == 1 and isinstance(a.targets[0], ast.Name) and isinstance(a.value, ast.List) and not a.value.elts):
+            continue
+        L = a.targets[0].id
+        names = [n for n in own if isinstance(n, ast.Name) and n.id == L]
+        if sum(1 for n in names if isinstance(n.ctx, ast.Store)) != 1:
+            continue
+        loads = [n for n in names if isinstance(n.ctx, ast.Load)]
+        ext = None
+        ok = True
+        for n in loads:
+            par = getattr(n, "_parent", None)
+            if isinstance(par, ast.Attribute) and par.attr == "append" and par.value is n:
+                continue
+            if isinstance(par, ast.Call) and isinstance(par.func, ast.Attribute) and par.func.attr == "extend" and isinstance(par.func.value, ast.Name) and par.args == [n] and not par.keywords and isinstance(getattr(par, "_parent", None), ast.Expr) and ext is None:
+                ext = par
+                continue
+            ok = False
+        if not ok or ext is None:
+            continue
+        R = ext.func.value.id
+        between = [n for n in own if isinstance(n, ast.Name) and n.id == R and a.lineno < getattr(n, "lineno", 0) < ext.lineno]
+        if between or ext.lineno <= a.lineno:
+            continue
+        for n in loads:
+            n.id = R
+        for holder in ast.walk(fi.node):
+            for fld in ("body", "orelse", "finalbody"):
+                seq = getattr(holder, fld, None)
+                if isinstance(seq, list):
+                    seq[:] = [s_ for s_ in seq if s_ is not a and not (isinstance(s_, ast.Expr) and s_.value is ext)] or ([ast.Pass()] if seq else seq)
+        count += 1
+    if count:
+        drop_caches(fi)
+    return count
+
+
 def drop_caches(fi: FunctionInfo) -> None:
     """forget what was computed about a function whose tree was just rewritten by a local
     normal form (reaching definitions, path conditions)"""
